@@ -1,7 +1,7 @@
 """C05 CPC: exhaustive predicates over the compression tables (complete prefix codes, bijective permutations, definitional
 tables), wrapping probes in the coupon table, masked row folding in the union, reduce_k dominance."""
 from fractions import Fraction
-from astu import strip, strip_all, walk, walkp, txt, short, is_this_field, field_name, stmts_of, always_throws, functions_by, local_decls
+from astu import C, ctxt, gt_pair, eq_const, strip, strip_all, walk, walkp, txt, short, is_this_field, field_name, stmts_of, always_throws, functions_by, local_decls
 from vlib.core import ob
 
 
@@ -109,7 +109,7 @@ def probe_rules(facts):
                     continue
                 else:
                     probs.append("probe advanced by `%s` (not `(p + 1) & mask`)" % txt(a))
-            if L.get("k") == "For":
+            if L.get("k") == "For" and L.get("inc") is not None:
                 probs.append("the probe sequence is a bounded `for` loop (`%s`): it stops at the end of the array instead of wrapping to slot 0" % t)
         if probs:
             out.append(ob("cpc.probe", key, fn["pat"], "violated", "; ".join(probs) + ": entries of a cluster that wraps past the last slot become unreachable", fn["qname"]))
@@ -158,7 +158,7 @@ def union_rules(facts):
             red, first_merge = None, None
             for i, s in enumerate(st):
                 t = txt(s.get("c")) if s.get("k") == "If" else ""
-                if s.get("k") == "If" and "get_lg_k()" in t and "<" in t and any(x.get("cname") == "reduce_k" for x in _calls(s.get("t"))) and red is None:
+                if s.get("k") == "If" and "get_lg_k()" in t and (gt_pair(s["c"]) or (0, 0, 0))[2] and "get_lg_k()" in txt(gt_pair(s["c"])[1]) and any(x.get("cname") == "reduce_k" for x in _calls(s.get("t"))) and red is None:
                     red = i
                 if first_merge is None and any(x.get("cname") in ("or_table_into_matrix", "or_window_into_matrix", "or_matrix_into_matrix", "walk_table_updating_sketch") for x in _calls(s)):
                     first_merge = i
